@@ -78,6 +78,8 @@ def requirements(tier):
     k = 1 if tier == "quick" else 10
     req = {
         "ivp:free": 2000 * k,
+        "stream:evaluated": 2000 * k,
+        "stream:maneuver-at-epoch": 100 * k,
         "ivp:inside-burn": 300 * k,
         "ivp:after-maneuver": 1000 * k,
         "ode:free": 1000 * k,
@@ -379,7 +381,7 @@ def gen_maneuvers(rng, n, T_us, min_count=1):
         gap = int(weights[2 * k] / tot * span)
         if k > 0 and rng.random() < 0.25:
             gap = 0  # touching maneuvers (impulse at the start/stop of a burn, back-to-back burns)
-        if k == 0 and rng.random() < 0.1:
+        if k == 0 and rng.random() < 0.2:
             gap = 0  # maneuver exactly at the epoch
         cursor += gap
         kind = rng.choice(["imp", "burn"])
@@ -530,6 +532,28 @@ def case_mans(ctx, job, idx, rng, st):
             cmp_state(ctx, name, got, ref, n, scale, REL_IVP, key, dict(w, query_class=cls),
                       f"state at a date {cls} the maneuvers differs from Hill's equations with the stated maneuvers")
             ctx.count(name)
+    # history route: the same dates requested as ONE stream from the same initialised propagator (iter / ephem):
+    # every maneuver must still be applied exactly once for every requested date, whatever was requested before
+    for ori in ("QSW", "TNW"):
+        qs = sorted(set(q for q in queries if q >= 0 and classify(mans, q) != "at-impulse" and (ori, q) in results))
+        if len(qs) < 2:
+            continue
+        w = dict(sma=sma, n=n, orientation=ori, state0=states[ori], epoch=edesc, mans=mans_descr(mans), stream_us=qs)
+        try:
+            stream = [probe.arr(o) for o in orbs[ori].iter(dates=[date_at(epoch, q) for q in qs])]
+        except Exception as exc:
+            ctx.violation("C16/iter-raises-maneuvers", dict(w, exc=repr(exc)), f"iter(dates=) with maneuvers raised {exc!r}")
+            continue
+        ctx.expect(len(stream) == len(qs), "C16/iter-stream-length-maneuvers", w, f"iter(dates=) yielded {len(stream)} states for {len(qs)} dates")
+        for q, got in zip(qs, stream):
+            scale = scale_of(states[ori], n, q * 1e-6, dv_sum, acc_sum)
+            cmp_state(ctx, "stream:vs-single-request", got, results[(ori, q)], n, scale, REL_PERM, "C16/maneuver-effect-depends-on-earlier-requests",
+                      dict(w, dt_us=q, first_maneuver_us=mans[0]["t_us"]),
+                      "state yielded by iter(dates=) differs from the state returned by a single propagate() to the same date "
+                      "(a maneuver is not applied exactly once when several dates are requested from the same propagator)")
+            ctx.count("stream:evaluated")
+        if mans[0]["t_us"] == 0:
+            ctx.count("stream:maneuver-at-epoch")
     for q in queries:
         if ("QSW", q) in results and ("TNW", q) in results:
             scale = scale_of(states["QSW"], n, q * 1e-6, dv_sum, acc_sum)
